@@ -53,6 +53,9 @@ func genC18(r *Rng, tier string) []Case {
 	if tier == "thorough" {
 		reps = 60
 	}
+	for i := 0; i < 4; i++ { // several fresh processes: the schedule differs each time
+		cs = append(cs, Case{"conc_first_use", []Sx{Zi(int64(i))}})
+	}
 	for i := 0; i < reps; i++ {
 		// signed exchange serializers, with permuted header insertion order
 		ver := sxgVersions[i%3]
